@@ -82,6 +82,8 @@ def run(an: Analysis, rep):
     rep.run(r038, an, rep)
     from .common import SharedRules
     from . import c02, c04, c10
+    from .common import assert_guard_rule
+    rep.run(assert_guard_rule, an, rep, "R03.G", ["to_code"])
     from .common import truthiness_rule
     rep.run(truthiness_rule, an, rep, "R03.9", ["to_code"], [("Instruction", "line_number"), ("AdditionalLine", "line")])
     from . import c01, c11
@@ -96,7 +98,7 @@ def run(an: Analysis, rep):
     rep.run(c04.r043, an, sh)
     rep.run(c04.r044, an, sh)
     rep.stats.update(an.stats([an.interp("to_code", V)[0] for V in VERSIONS]))
-    rep.assumptions += ["`assert` is accepted as a guard form (the repository's own convention); it vanishes under python -O"]
+    rep.assumptions += ["`python -O` is covered: R03.G / R11.A require that no guard of the API closures is an assert statement"]
 
 
 def _index_map_attr(ci: ClassInfo) -> str:
